@@ -33,8 +33,7 @@ type Activity struct {
 }
 
 func (vm *VisitorModel) rootVisitor(r *Run) string {
-	decls := FuncDecls(vm.pkg)
-	pc := decls["parseCypher"]
+	pc := frontendParseFunc(vm.pkg)
 	if pc == nil {
 		r.Fatal("parseCypher not found")
 	}
